@@ -1,0 +1,40 @@
+//go:build verif
+
+package shutterevents
+
+// Round-trip compositions used only by the verifier (/verif, property C14): decoding what the application
+// encoded. Each function is the observation point of the property, MakeEvent(MakeABCIEvent(x), h), for one
+// event type; the contracts in zz_contracts_verif.go state that the result carries x's values. This file is
+// compiled only with the build tag `verif`.
+
+func verifRoundTripAccusation(x Accusation, h int64) (IEvent, error) {
+	return MakeEvent(x.MakeABCIEvent(), h)
+}
+
+func verifRoundTripApology(x Apology, h int64) (IEvent, error) {
+	return MakeEvent(x.MakeABCIEvent(), h)
+}
+
+func verifRoundTripBatchConfig(x BatchConfig, h int64) (IEvent, error) {
+	return MakeEvent(x.MakeABCIEvent(), h)
+}
+
+func verifRoundTripBatchConfigStarted(x BatchConfigStarted, h int64) (IEvent, error) {
+	return MakeEvent(x.MakeABCIEvent(), h)
+}
+
+func verifRoundTripCheckIn(x CheckIn, h int64) (IEvent, error) {
+	return MakeEvent(x.MakeABCIEvent(), h)
+}
+
+func verifRoundTripEonStarted(x EonStarted, h int64) (IEvent, error) {
+	return MakeEvent(x.MakeABCIEvent(), h)
+}
+
+func verifRoundTripPolyCommitment(x PolyCommitment, h int64) (IEvent, error) {
+	return MakeEvent(x.MakeABCIEvent(), h)
+}
+
+func verifRoundTripPolyEval(x PolyEval, h int64) (IEvent, error) {
+	return MakeEvent(x.MakeABCIEvent(), h)
+}
